@@ -81,6 +81,21 @@ def run(ctx):
             ctx.formula('FORMULA', f'[{tag}] bounding range == [start + floor(min(D,0)) - ceil(2w/df), start + ceil(max(D,0)) + '
                         f'ceil(2w/df) + 1) clipped to the band', fi, ba.get('bounding_f_range', NONE), bb['bounding_f_range'],
                         node=ca[0].node, construct='add_signal(bounding_f_range=...)')
+    # the general injection must honour the helper's range: its clamp keeps the exclusive stop index up to fchans
+    ctx.clause = 'D3'
+    asig = ctx.func(FR + 'add_signal')
+    T.NOTNONE.update({'path', 't_profile', 'f_profile', 'BFR'})
+    T.SYMKIND.update({'path': 'callable', 't_profile': 'callable'})
+    r, I = ctx.run(asig, args={'bounding_f_range': sym('BFR'), 'bp_profile': NONE, 'integrate_path': FALSE, 'integrate_t_profile': FALSE,
+                               'integrate_f_profile': FALSE, 'doppler_smearing': FALSE}, no_inline=(FR + 'get_index',))
+    T.SYMKIND.clear()
+    ds = [e for e in I.events if e.kind == 'store' and e.data.get('target') == 'sub' and ast.unparse(e.data['base_node']) == 'self.data']
+    ctx.require(ds, 'add_signal: data update not found')
+    want = ctx.spec(asig, 'ANY[:, min(max(self.get_index(BFR[0]), 0), self.fchans):min(max(self.get_index(BFR[1]), 0), self.fchans)]',
+                    env={'ANY': sym('ANY'), 'BFR': sym('BFR')}, I=ctx.interp(no_inline=(FR + 'get_index',)))
+    ctx.formula('FORMULA', 'general injection maps the requested range to columns [clip(i0, 0, fchans), clip(i1, 0, fchans)) — the '
+                'exclusive stop may reach fchans, so the helper\'s box keeps the top channel', asig, ds[0].data['key'],
+                want.single_atom().args[1], node=ds[0].node, construct=ds[0].text() + ' [columns]')
     # RANGE: at every call site of Frame.add_signal in the package the sub-step count is provably >= 1
     ctx.clause = 'D2'
     sites = 0
